@@ -359,6 +359,46 @@ def work_repeat(job):
     return r
 
 
+RAW_FOR = {'html': ['html', '*'], 'latex': ['latex', '*'], 'beamer': ['latex', '*'], 'memoir': ['latex', '*'], 'fodt': ['odt', '*']}
+
+
+def work_raw(job):
+    """raw source for a format ({=format}) is carried into that format verbatim and nothing else comes with it (no fence, no marker)"""
+    seed, lo, hi = job
+    r = core.JobResult()
+    with core.Session(r) as s:
+        for i in range(lo, hi):
+            rng = core.job_rng(seed, ID, 'raw', i)
+            fname = rng.choice(sorted(RAW_FOR))
+            tag = rng.choice(RAW_FOR[fname])
+            pay = rng.choice(['RAW zqm', 'x zqm y', 'zqm(1, 2)', 'zqm ... done'])
+            nfence = rng.choice([3, 4, 5])
+            if rng.random() < 0.5:
+                src = 'zqa\n\n%s{=%s}\n%s\n%s\n\nzqb\n' % ('`' * nfence, tag, pay, '`' * nfence)
+                exp = 'zqa %s zqb' % pay
+            else:
+                src = 'zqa `%s`{=%s} zqb\n' % (pay, tag)
+                exp = 'zqa %s zqb' % pay
+            srcb = src.encode()
+            rq = D.req_to_json('asan', 'CONVERT', D.FMT[fname], EXT, 0, 1 | (1 << 4), [srcb])
+            rep = s.call('asan', 'CONVERT', D.FMT[fname], EXT, 0, 1 | (1 << 4), [srcb], crash_is_violation=False)
+            r.evaluations += 1
+            r.stats['raw_source_renderings_checked'] += 1
+            if rep is None or rep.status:
+                continue
+            out = rep.out.decode('utf-8', 'replace')
+            a, b = out.find('zqa'), out.find('zqb')
+            if a < 0 or b < 0:
+                r.violate('raw-source:%s:lost' % fname, 'text around a {=%s} raw source is missing from the %s output' % (tag, fname), dict(requests=[rq]), core.show(srcb, 200))
+                continue
+            seg = re.sub(r'<[^>]*>', ' ', out[a:b + 3]) if fname in ('html', 'fodt') else out[a:b + 3]
+            seg = re.sub(r'\s+', ' ', seg).strip()
+            if seg != exp:
+                r.violate('raw-source:%s:%s' % (fname, 'block' if '\n\n' in src else 'span'), 'raw source tagged {=%s} is rendered as %r in %s, expected %r' % (tag, seg[:80], fname, exp), dict(requests=[rq]), core.show(srcb, 200))
+            r.distinct.add(core.h64('raw', src, fname))
+    return r
+
+
 def main():
     chk = core.Check(ID)
     n = chk.scale(12000, 200000)
@@ -370,6 +410,8 @@ def main():
                        'allowed escaped forms per format are taken from the format\'s own rules (XML entities; LaTeX control sequences listed in LATEX_ESC)']
     chunk = max(20, n // 64)
     chk.run_jobs(work, [(chk.seed, lo, min(n, lo + chunk)) for lo in range(0, n, chunk)])
+    nr = chk.scale(480, 6000)
+    chk.run_jobs(work_raw, [(chk.seed, lo, min(nr, lo + 30)) for lo in range(0, nr, 30)])
     counts = [1100, 2500] if not chk.thorough else [999, 1000, 1001, 1100, 2500, 5000]
     chk.run_jobs(work_repeat, [(chk.seed, ui, k) for ui in range(len(gen.REPEAT_UNITS)) for k in counts])
     return chk.finish()
